@@ -4,6 +4,7 @@ from . import gen
 from . import mig
 from . import mw
 from . import iso
+from . import cel
 
 
 def _c13(res):
@@ -119,6 +120,7 @@ def _c08(res):
 TABLE = {
     **{pid: {"run": _gen_prop(pid), "replay": gen.replay, "level": "proof"} for pid in GEN},
     "C08": {"run": _c08, "replay": gen.replay, "level": "proof"},
+    "C10": {"run": cel.run, "replay": cel.replay, "level": "proof"},
     "C14": {"run": iso.run, "replay": iso.replay, "level": "proof"},
     "C20": {"run": mw.run, "replay": mw.replay, "level": "proof"},
     "C18": {"run": mig.run, "replay": mig.replay, "level": "proof"},
